@@ -23,7 +23,11 @@ RULE = ('per stage (blocked, discard, downsample, decimate, rms, derivative, iir
         'event_rate: all compositions of spans of 9 (thorough 11) samples and random spans up to 300 with random events, window 1..40, step 1..40; '
         'CAUSAL Events streams (events at or after the end of the block that carries them, never before its start): one event multiset on one timeline fed under 3 '
         'different chunkings / assignments of the events to blocks (edges-like lag 0..m, arbitrarily early blocks, block ends exactly at event positions, zero-span blocks, '
-        'events beyond the end of the stream), each judged against the model and the window counts of the whole stream; COMPOSITION boolean stream meeting the C13 '
+        'events beyond the end of the stream), each judged against the model and the window counts of the whole stream; '
+        'rms on uint8 / int16 / int32 streams whose squares overflow the dtype (reference: RMS of the exact integers in float64); after EVERY run of every array '
+        'stage the metadata / channel / s0 / fs of the chunks that were sent are compared with a deep copy taken before (stages do not annotate their input); '
+        'broadcast(auto_th, blocked | rms | downsample) on the same annotated chunks, baseline spanning one or several chunks: no exception, both outputs equal '
+        'their stand-alone runs, the sibling is judged like a stand-alone case (model + oracle); COMPOSITION boolean stream meeting the C13 '
         'run-length precondition -> real pipeline.edges (debounce 1..6, all detect modes, both initial states, plain and PipelineData input) -> real pipeline.event_rate under '
         'chunkings cut exactly min_samples before / after an edge and at every offset in between, one sample per chunk, random: the Events blocks edges emitted go to the '
         'model, the rates must equal the single-chunk run and the counts of the TRUE edge positions per window. '
@@ -114,7 +118,14 @@ def _gen(case, seed):
     st = case['stage']
     rs = np.random.RandomState(seed % (2 ** 31))
     rows = _rows(case)
-    if st in ('blocked', 'discard', 'downsample', 'transform', 'mc_reference', 'rms'):
+    if st == 'rms' and case.get('big'):
+        # distinct integers of the stream's dtype whose SQUARES do not fit that dtype (rms must not square in it)
+        lo, hi = {'u1': (16, 255), 'i2': (182, 32767), 'i4': (46341, 2 ** 31 - 1)}[_v(case, 'dtype')]
+        X = np.stack([lo + rs.permutation(min(hi - lo + 1, 4000))[:N].astype(float) * ((hi - lo) // min(hi - lo, 3999))
+                      for r in range(rows)])
+        if _v(case, 'dtype') != 'u1':
+            X = X * rs.choice([1, -1], size=X.shape)
+    elif st in ('blocked', 'discard', 'downsample', 'transform', 'mc_reference', 'rms'):
         X = np.stack([np.arange(N, dtype=float) + 1000 * r + 1 for r in range(rows)])
     elif st == 'derivative':
         # distinct adjacent differences; the first sample is far enough from the initial state that x[0] - init is
@@ -341,6 +352,8 @@ def _reference(case, X):
         n = _rms_n(case)
         nb = N // n
         d = X2[..., :nb * n].reshape(X2.shape[0], nb, n)
+        if d.dtype.kind in 'biu':
+            d = d.astype(np.float64)        # the whole-signal RMS of the exact integers (float dtypes: as they are)
         return np.mean(d ** 2, axis=-1) ** 0.5
     if st == 'derivative':
         pad = np.full((X2.shape[0], 1), fill_value=_init_obj(case))
@@ -458,7 +471,26 @@ def _encode(case, o, lookups):
     return enc
 
 
-def _drive(case, chunks, cb=None, prefix=None):
+def _snapshot(c):
+    from psiaudio.pipeline import PipelineData
+    if not isinstance(c, PipelineData):
+        return None
+    return copy.deepcopy((c.metadata, c.channel, c.s0, c.fs))
+
+
+def _input_change(chunks, snaps):
+    """what a stage did to the annotations of the chunks it was SENT (None: nothing)"""
+    for k, (c, snap) in enumerate(zip(chunks, snaps)):
+        if snap is None:
+            continue
+        now = (c.metadata, c.channel, c.s0, c.fs)
+        for name, a, b in zip(('metadata', 'channel', 's0', 'fs'), now, snap):
+            if not _same(a, b):
+                return f'{name} of input chunk {k} changed from {b!r} to {str(a)[:120]}'
+    return None
+
+
+def _drive(case, chunks, cb=None, prefix=None, watch=None):
     """send the chunks; v.clobber: the target keeps a copy and then OVERWRITES the array it was given (a downstream
     stage working in place must not disturb later output); prefix: chunks of another stream, then the Ellipsis
     reset message, are sent first - returns only what is emitted after the forwarded Ellipsis plus the count of
@@ -480,8 +512,14 @@ def _drive(case, chunks, cb=None, prefix=None):
         cr.send(c)
     if prefix is not None:
         cr.send(Ellipsis)
+    snaps = [_snapshot(c) for c in chunks]
     for c in chunks:
         cr.send(c)
+    if watch is not None and not _v(case, 'clobber'):
+        # (with v.clobber the harness's own target annotates what it receives, which may be the input object itself)
+        ch = _input_change(chunks, snaps)
+        if ch:
+            watch.append(ch)
     n_reset = sum(1 for o in outs if o is Ellipsis)
     if prefix is not None and n_reset:
         k = max(i for i, o in enumerate(outs) if o is Ellipsis)
@@ -502,8 +540,9 @@ def _impl_array(case):
         pre = dict(case, sizes=_v(case, 'reset'), s0=case['s0'] + 100000)
         prefix = _chunks(pre, _gen(pre, 1) + 20000, pre['sizes'])
     try:
-        outs, n_reset = _drive(case, _chunks(case, X, case['sizes']), ths.append, prefix)
-        one, _ = _drive(case, _chunks(case, X, [X.shape[-1]]), ths1.append)
+        watch = []
+        outs, n_reset = _drive(case, _chunks(case, X, case['sizes']), ths.append, prefix, watch=watch)
+        one, _ = _drive(case, _chunks(case, X, [X.shape[-1]]), ths1.append, watch=watch)
     except AttributeError as e:
         if case['stage'] == 'derivative' and not case['ann']:
             return {'raised_allowed': 'AttributeError'}      # plain arrays have no .fs (documented scope)
@@ -517,6 +556,8 @@ def _impl_array(case):
            'one': [_encode(case, o, lookups) for o in one]}
     if prefix is not None:
         res['n_reset'] = n_reset
+    if watch:
+        res['input_changed'] = watch[0]
     # the dtype of what is emitted is the dtype of the one-shot whole-signal computation (bool for auto_th)
     want_dt = np.dtype(bool) if case['stage'] == 'auto_th' else ref.dtype
     bad_dt = sorted({str(np.asarray(o).dtype) for o in outs + one if np.asarray(o).dtype != want_dt})
@@ -687,6 +728,55 @@ def _impl_edges_rate(case):
     return res
 
 
+# ------------------------------------------------------------------ broadcast(auto_th, sibling)
+def _bc_sub(case):
+    """the sibling stage and auto_th as stand-alone cases on the same stream / chunking"""
+    sib = {k: v for k, v in case.items() if k not in ('sib', 'p')}
+    sib.update(stage=case['sib'], p=case['p']['sib'])
+    ath = dict(sib, stage='auto_th', p=case['p']['ath'])
+    return sib, ath
+
+
+def _impl_bcast(case):
+    from psiaudio import pipeline as P
+    sib, ath = _bc_sub(case)
+    X = _data(sib)
+    lookups = _lookups(sib, _reference(sib, X))
+
+    def run(which, sizes):
+        out_t, out_s = [], []
+        t = _make(ath, out_t.append, [].append)
+        s = _make(sib, out_s.append)
+        send = {'both': P.broadcast(t.send, s.send).send, 'ath': t.send, 'sib': s.send}[which]
+        chunks = _chunks(sib, X, sizes)
+        snaps = [_snapshot(c) for c in chunks]
+        for c in chunks:
+            send(c)
+        return out_t, out_s, _input_change(chunks, snaps)
+
+    def enc_t(outs):
+        return [{'vals': np.asarray(o).astype(int).tolist(), 's0': _s0(o.s0), 'fsd': _fsd(case['fs'], o.fs),
+                 'ch': _ch(o.channel, sib), 'md': _md(o.metadata, sib), 'th': 'auto_th' in o.metadata} for o in outs]
+    try:
+        both_t, both_s, changed = run('both', case['sizes'])
+    except ValueError as e:
+        return {'crash': f'ValueError: {e}'[:200]}
+    solo_t = run('ath', case['sizes'])[0]
+    solo_s = run('sib', case['sizes'])[1]
+    one_s = run('sib', [X.shape[-1]])[1]
+    res = {'outs': [_encode(sib, o, lookups) for o in both_s], 'one': [_encode(sib, o, lookups) for o in one_s],
+           'solo': [_encode(sib, o, lookups) for o in solo_s], 'ath': enc_t(both_t), 'ath_solo': enc_t(solo_t)}
+    if changed:
+        res['input_changed'] = changed
+    if both_s:
+        try:
+            P.concat(both_s, axis=-1)
+            res['concat'] = 'ok'
+        except ValueError as e:
+            res['concat'] = 'ValueError: ' + str(e)[:200]
+    return res
+
+
 class StageHung(Exception):
     pass
 
@@ -709,6 +799,8 @@ def impl(case):
             return _impl_events(case)
         if case['stage'] == 'edges_rate':
             return _impl_edges_rate(case)
+        if case['stage'] == 'bcast':
+            return _impl_bcast(case)
         return _impl_array(case)
     finally:
         if armed:
@@ -747,6 +839,8 @@ def term(case, res):
     st, p = case['stage'], case['p']
     if 'crash' in res:
         return 'false'
+    if st == 'bcast':
+        return term(_bc_sub(case)[0], res)      # what the sibling emitted next to auto_th, against the sibling's model
     # C12_MODEL_UNREPAIRED=1 compares with the `rep = false` variants of the model instead (used once, by hand, to
     # validate the `_unrepaired` model functions against the tree before the fix-C12 commits)
     rep = 'false' if os.environ.get('C12_MODEL_UNREPAIRED') else 'true'
@@ -845,7 +939,17 @@ def oracle(case, res):
     if 'raised_allowed' in res:
         return None
     if 'crash' in res:
-        return f'{st}{p}: the stage cannot process the stream at all: {res["crash"]}'
+        what = f'broadcast(auto_th, {case["sib"]})' if st == 'bcast' else st
+        return f'{what}{p}: the stage cannot process the stream at all (chunking {case["sizes"][:12]}): {res["crash"]}'
+    if res.get('input_changed'):
+        return (f'{st}{p}: the stage annotated / changed a chunk it was SENT ({res["input_changed"]}); a sibling stage fed '
+                f'with the same chunks can then no longer concatenate them')
+    if st == 'bcast':
+        if res['ath'] != res['ath_solo']:
+            return f'broadcast(auto_th, {case["sib"]}){p}: auto_th emits something else than when it runs alone'
+        if res['outs'] != res['solo']:
+            return f'broadcast(auto_th, {case["sib"]}){p}: the sibling emits something else than when it runs alone'
+        return oracle(_bc_sub(case)[0], res)
     outs, one = res['outs'], res['one']
     if st in ('event_rate', 'edges_rate'):
         return _oracle_events(case, res)
@@ -1011,6 +1115,8 @@ def nontrivial(case, res):
         return False
     if st == 'edges_rate' or 'blocks' in case:
         return bool(_er_ahead(case, res))           # at least one event ahead of the span of its block
+    if st == 'bcast':
+        return nontrivial(_bc_sub(case)[0], res)
     if case.get('offgrid'):
         return True                                 # >= 2 chunks of a stream that starts off the window grid
     per = _period(case)
@@ -1028,6 +1134,8 @@ def nontrivial(case, res):
 
 def key(case, res):
     st = case['stage']
+    if st == 'bcast':
+        return None
     if st == 'downsample' and case.get('ann'):
         return KNOWN_KEYS[st]
     if st == 'decimate' and len(case['sizes']) > 1:
@@ -1199,6 +1307,38 @@ def _rms_offgrid_cases(rng, reps):
                 c = _case('rms', {'n': n}, rng.random() < 0.4, True, sizes, rng, s0=s0)
                 c['offgrid'] = True
                 yield c
+
+
+def _rms_int_cases(rng, reps):
+    """integer streams (uint8 / int16 / int32) whose squares overflow their dtype: the reference is the RMS of the exact
+    integers in float64"""
+    for i in range(reps):
+        dt = ['i2', 'u1', 'i4'][i % 3]
+        n = rng.choice([1, 2, 3, 4, 5, 8, rng.randint(1, 20)])
+        N = rng.randint(n, min(180, 8 * n + 6))
+        ann, two = i % 2 == 0, rng.random() < 0.4
+        for sizes in ([N], _rand_sizes(rng, N, 6), _cut_at([n * j + 1 for j in range(1, N // n)], 0, N)):
+            c = _case('rms', {'n': n}, two, ann, sizes, rng, s0=rng.choice([0, n, -2 * n, 7 * n]))
+            c['v'] = {'dtype': dt}
+            c['big'] = True
+            yield c
+
+
+def _bcast_cases(rng, reps):
+    """the same annotated chunks go to auto_th AND to a sibling stage that carries a remainder (pipeline.broadcast)"""
+    for i in range(reps):
+        sibst = ['blocked', 'rms', 'downsample'][i % 3]
+        N = rng.randint(8, 80)
+        ps = _params(sibst, rng, N, False)
+        per = ps.get('n', 1) if sibst == 'rms' else 1
+        B = rng.choice([2, 3, N // 2, N - 1, rng.randint(2, N)])
+        pa = {'B': max(2, B), 'nsd': rng.choice([1, 2]), 'mode': rng.choice(['positive', 'negative', 'both']),
+              'fsarg': rng.choice(['auto', 'value'])}
+        for sizes in (_rand_sizes(rng, N, 6), _cut_at([max(1, B // 2), B + 1, B + 3], 0, N),
+                      [1] * N if N < 30 else _rand_sizes(rng, N, 3)):
+            c = _case(sibst, ps, rng.random() < 0.4, True, sizes, rng, s0=rng.choice([0, 3, -5]) * per)
+            c.update(stage='bcast', sib=sibst, p={'ath': pa, 'sib': ps})
+            yield c
 
 
 def _cut_at(points, lo, N):
@@ -1422,6 +1562,9 @@ def cases(tier, rng):
     # causal Events streams: events at or after the end of the block that carries them (as pipeline.edges emits them)
     for _ in range(70 if quick else 1500):
         yield from _er_ahead_group(rng)
+    # rms on integer streams whose squares overflow the dtype; auto_th next to a sibling stage on the same chunks
+    yield from _rms_int_cases(rng, 30 if quick else 600)
+    yield from _bcast_cases(rng, 36 if quick else 700)
     # rms on annotated streams that start off the window grid (s0 = k*n + r)
     yield from _rms_offgrid_cases(rng, 40 if quick else 800)
     # composition: boolean stream -> real edges -> real event_rate
